@@ -128,17 +128,17 @@ def table():
     def unary(f): return lambda args: ('dec', f(val(args[0]))) if all_num(args) else None
     def cmp(f): return lambda args: ('bool', f(val(args[0]), val(args[1]))) if all_num(args) else None
     big1 = '1' + '0' * 119 + '7'; big2 = '9' * 130; frac = '0.' + '0' * 115 + '123456789'
-    add('"+"', 'nas_arithmetic/add', (2, 3), fold('+', 0), 'the exact sum of all its arguments', [f'("+" "{big1}" "5")', f'("+" "{frac}" "1")', '("+" "0.1" "0.2")', '("+" "007" "1")', '("+" "1e2" "1")', f'("+" "{big2}" "1" "{frac}")', '("+" "1" "x")', '("+" "1" 2)'])
+    add('"+"', 'nas_arithmetic/add', (2, 3), fold('+', 0), 'the exact sum of all its arguments', [f'("+" "{big1}" "5")', f'("+" "{frac}" "1")', '("+" "0.1" "0.2")', '("+" "007" "1")', '("+" "1e2" "1")', '("+" "1.5E10" "1")', '("+" "2.5E+20" "0.5")', '("+" "1.5E-10" "1")', '("+" "1.50e10" "0")', f'("+" "{big2}" "1" "{frac}")', '("+" "1" "x")', '("+" "1" 2)'])
     add('"-"', 'nas_arithmetic/take_away', (1, 2), minus, 'the first argument minus the second (the negation of a single argument)', [f'("-" "{big1}" "8")', '("-" "3" "5")', '("-" "1.50" "0.5")', '("-" "010" "1e1")', '("-" "5" "3")', f'("-" "{frac}")', f'("-" "1" "{frac}")', '("-" "1" null)'])
-    add('"*"', 'nas_arithmetic/times', (2, 3), fold('*', 1), 'the exact product of all its arguments', [f'("*" "{big1}" "3")', f'("*" "{frac}" "{frac}")', '("*" "1.5" "2" "4")', '("*" "007" "1e1")', f'("*" "{big2}" "{big2}")', '("*" "2" "y")'])
+    add('"*"', 'nas_arithmetic/times', (2, 3), fold('*', 1), 'the exact product of all its arguments', [f'("*" "{big1}" "3")', f'("*" "{frac}" "{frac}")', '("*" "1.5" "2" "4")', '("*" "007" "1e1")', '("*" "1.5E-10" "10000000000")', f'("*" "{big2}" "{big2}")', '("*" "2" "y")'])
     add('"/"', 'nas_arithmetic/divide', (2,), divide, 'the first argument divided by the second; nothing when the divisor is zero', ['("/" "1" "4")', '("/" "10" "0")', '("/" "10" "0.000")', '("/" "7" "-2")', '("/" "1" "z")'])
     add('"%"', 'nas_arithmetic/reminder', (2,), rem, 'the remainder of the first argument by the second; nothing when the divisor is zero', ['("%" "7" "4")', '("%" "10" "0")', '("%" "7.5" "2")', '("%" "1" 2)'])
     add('"abs"', 'nas_arithmetic/abs', (1,), unary(lambda r: z3.If(r < 0, -r, r)), 'the absolute value', [f'("abs" "-{big1}")', f'("abs" "{frac}")', f'("abs" "-{frac}")', '("abs" "-0")', '("abs" 1)'])
-    add('"||"', 'nas_arithmetic/normelize', (1,), unary(lambda r: r), 'the same number in normal form', [f'("||" "{big1}")', f'("||" "{frac}")', '("||" "1.500")', '("||" "0010")', '("||" "1e3")', '("||" "abc")'])
+    add('"||"', 'nas_arithmetic/normelize', (1,), unary(lambda r: r), 'the same number in normal form', [f'("||" "{big1}")', f'("||" "{frac}")', '("||" "1.500")', '("||" "0010")', '("||" "1e3")', '("||" "1.5E10")', '("||" "2.50E-10")', '("||" "abc")'])
     add('"round"', 'nas_arithmetic/round', (1,), unary(lambda r: ROUND(r)), 'the number rounded to an integer', ['("round" "1.4")', '("round" "-1.6")', f'("round" "{big1}.7")', '("round" "x")'])
     for nm, f, op in (('"="', 'eq', lambda a, b: a == b), ('"!="', 'neq', lambda a, b: a != b), ('"<"', 'lt', lambda a, b: a < b), ('"<="', 'lte', lambda a, b: a <= b), ('">"', 'gt', lambda a, b: a > b), ('">="', 'gte', lambda a, b: a >= b)):
         add(nm, 'nas_compare/' + f, (2,), cmp(op), 'the comparison of the two numbers by value (independent of their spelling)',
-            [f'({nm} "0099" "100")', f'({nm} "007" "7")', f'({nm} "0000" "0")', f'({nm} "1e2" "100")', f'({nm} "100" "1e2")', f'({nm} "1.50" "1.5")', f'({nm} "-007" "-7")', f'({nm} "10" "9")', f'({nm} "9" "10")', f'({nm} "1.0" "1")', f'({nm} "{big1}" "{big1}.0")', f'({nm} "{big1}" "{big1[:-1]}8")', f'({nm} "{frac}" "0")', f'({nm} "-1" "1e0")', f'({nm} "2" "10")', f'({nm} "1" "a")'])
+            [f'({nm} "1.5E10" "1.5e10")', f'({nm} "1.5E10" "15000000000")', f'({nm} "2.50E+20" "25e19")', f'({nm} "0099" "100")', f'({nm} "007" "7")', f'({nm} "0000" "0")', f'({nm} "1e2" "100")', f'({nm} "100" "1e2")', f'({nm} "1.50" "1.5")', f'({nm} "-007" "-7")', f'({nm} "10" "9")', f'({nm} "9" "10")', f'({nm} "1.0" "1")', f'({nm} "{big1}" "{big1}.0")', f'({nm} "{big1}" "{big1[:-1]}8")', f'({nm} "{frac}" "0")', f'({nm} "-1" "1e0")', f'({nm} "2" "10")', f'({nm} "1" "a")'])
     return T
 
 
